@@ -224,6 +224,44 @@ func (e *env) meshTier() {
 		e.cf.Add(fmt.Sprintf("TClient %d %s %s", time.Now().UnixNano(), cc.coqFacts(), CoqList(terms)), "mesh dial, listener certificate: "+cc.Label)
 	}
 
+	// (a') TLS against the self-generated configs of non-TLS streams (conn.go generateServerTLSConfig /
+	// generateClientTLSConfig / verifyServerCertificate): a dialer WITH a TLS profile must not accept
+	// a non-TLS service (its certificate is self-signed), and a listener that authenticates clients
+	// must not accept a dial WITHOUT a TLS profile (no client certificate)
+	{
+		nli, err := srv.Listen("notls", nil)
+		Must(err)
+		wg.Add(1)
+		go serveAccepts(nli, &wg)
+		Must(cli.SetClientTLSConfig("m", &tls.Config{RootCAs: e.p.rootPool}, nil))
+		tc, err := cli.GetClientTLSConfig("m", srvID, netceptor.ExpectedHostnameTypeReceptor)
+		Must(err)
+		ok, derr := meshDial(cli, srvID, "notls", tc, wait)
+		e.im.Hist(fmt.Sprintf("mesh-dial:tls-client-to-non-tls-service:ok=%v", ok))
+		e.im.Count("mesh-dial tls->notls", true)
+		if ok {
+			e.im.Violate("a dial with a TLS client profile (RootCAs, receptor-name mode) to a NON-TLS stream service succeeds: the service's self-generated certificate was accepted",
+				"mesh-dial-accepts:untrusted-chain:non-tls-service", map[string]interface{}{"impl_error": fmt.Sprint(derr)})
+		}
+		// plain dial to the plain service: the control (outside the property; must simply work)
+		ok, _ = meshDial(cli, srvID, "notls", nil, wait)
+		e.im.Hist(fmt.Sprintf("mesh-dial:non-tls-to-non-tls:ok=%v", ok))
+		noCert := srvGood.malformed("no-cert", r)
+		var terms []string
+		now := time.Now().UnixNano()
+		for _, l := range listeners[:3] {
+			ok, derr := meshDial(cli, srvID, l.svc, nil, wait)
+			e.im.Hist(fmt.Sprintf("mesh-listener:%s:non-tls-dialer:ok=%v", l.svc, ok))
+			e.im.Count("mesh-listener non-tls dialer "+l.svc, true)
+			terms = append(terms, fmt.Sprintf("(lr %s (mkAddr %s []) %s)", l.sp.coq(), hxp([]byte(ids[0])), CoqBool(ok)))
+			if ok {
+				e.im.Violate(fmt.Sprintf("stream listener (%s) ACCEPTS a dial made without any TLS profile (no client certificate)", l.sp),
+					"mesh-listener-accepts:no-certificate:non-tls-dialer", map[string]interface{}{"listener": l.sp.String(), "impl_error": fmt.Sprint(derr)})
+			}
+		}
+		e.cf.Add(fmt.Sprintf("TListen %d %s %s", now, noCert.coqFacts(), CoqList(terms)), "mesh listeners vs a dial without TLS profile")
+	}
+
 	// (b) mutually authenticated listeners: the client certificate must name the claimed source
 	for _, id := range ids {
 		n := m.Nodes[id]
